@@ -323,6 +323,48 @@ def pipelined_scenario(backend, G=2.0):
     return obs
 
 
+def stuck_writer_scenario(backend, G=1.0, St=1.0):
+    """A connection that is stuck in a write when shutdown begins: the application streams a response far larger than the
+    socket buffers to a client that reads nothing.  '... always within graceful_timeout plus shutdown_timeout plus
+    scheduling slack, however many connections are stuck' (finding F62)."""
+    ev = []
+
+    async def app(scope, receive, send):
+        if scope["type"] == "lifespan":
+            await c14.lifespan_app(ev)(scope, receive, send)
+            return
+        await receive()
+        await send({"type": "http.response.start", "status": 200, "headers": []})
+        chunk = b"x" * 65536
+        for _ in range(2000):
+            await send({"type": "http.response.body", "body": chunk, "more_body": True})
+        await send({"type": "http.response.body", "body": b"", "more_body": False})
+
+    sv = c14.Served(backend, app, graceful_timeout=G, shutdown_timeout=St, keep_alive_timeout=30.0)
+    first = sv.wait_listening()
+    obs = {"backend": backend, "case": "stuck-writer", "G": G, "S": St, "error": None, "returned": None}
+    if first is None:
+        obs["error"] = "never listening: " + repr(sv.result["error"])
+        return obs
+    first.close()
+    s = sv.connect()
+    s.sendall(b"GET /big HTTP/1.1\r\nHost: x\r\n\r\n")      # ... and never reads
+    time.sleep(0.5)
+    t_trigger = time.monotonic()
+    sv.trigger.set()
+    sv.thread.join(G + St + SLACK + 1.0)
+    obs["returned"] = None if sv.thread.is_alive() else round(sv.result["returned_at"] - (t_trigger - sv.t0), 3)
+    # let the worker go: the client disappears, the pending write fails
+    try:
+        s.setsockopt(socket.SOL_SOCKET, socket.SO_LINGER, b"\x01\x00\x00\x00\x00\x00\x00\x00")
+    except OSError:
+        pass
+    s.close()
+    sv.thread.join(10.0)
+    obs["returned_after_client_left"] = not sv.thread.is_alive()
+    return obs
+
+
 def max_requests_scenario(backend):
     """The worker's own request limit is a shutdown trigger."""
     ev = []
@@ -387,6 +429,12 @@ def run(ctx):
             oracle_failures.append({"signature": "pipelined-at-shutdown:" + str(o.get("error") or "serve-did-not-return"), "obs": o})
         elif o["responses"] != 1 or o["started"] != ["/first"]:
             oracle_failures.append({"signature": "request-started-after-shutdown-began", "obs": {k: repr(v) for k, v in o.items()}})
+        o = stuck_writer_scenario(backend)
+        descs.append(o)
+        if o.get("error"):
+            oracle_failures.append({"signature": "harness:" + o["error"][:40], "obs": o})
+        elif o["returned"] is None or o["returned"] > o["G"] + o["S"] + SLACK:
+            oracle_failures.append({"signature": "F62:stuck-writer-outlives-shutdown", "backend": backend, "obs": o})
         o = max_requests_scenario(backend)
         descs.append(o)
         if o.get("error") or not o.get("returned"):
